@@ -19,22 +19,70 @@ structure PipeInst where
   contextArgs : Option (List String) := none
   deriving Repr, DecidableEq, Inhabited
 
-/-- `Step.__init__`: definition errors, then loading the module. -/
+/-- `step_cache.get_step(name)` (`Cache.get` then `moduleloader.get_module` → `importlib.import_module`)
+    for a name that is not a string: an unhashable value fails at the cache's dict look-up, anything
+    else at `name.startswith('.')`. -/
+def loadNonString (v : Val) : String × String :=
+  match v with
+  | .list _ | .dict _ | .set _ | .sic _ | .py _ | .jsonify _ => ("TypeError", "~unhashable type")
+  | _ => ("AttributeError", "~object has no attribute 'startswith'")
+
+/-- the decorator part of `Step._init_from_dict` (`RetryDecorator(...)`, `WhileDecorator(...)`). -/
+def decoratorInit (d : StepDef) : Except (String × String) Unit :=
+  if d.retryBad then .error ("pypyr.errors.PipelineDefinitionError", "~retry decorator must be a dict (i.e a map) type.")
+  else if d.whileBad then .error ("pypyr.errors.PipelineDefinitionError", "~while decorator must be a dict (i.e a map) type.")
+  else
+    let whileMissing := match d.while_ with
+      | some w => w.stop.isNone && w.max.isNone
+      | none => false
+    if whileMissing then .error ("pypyr.errors.PipelineDefinitionError", "~the while decorator must have either max or stop")
+    else .ok ()
+
+/-- `Step.__init__`: definition errors, then loading the module. A step given as anything but a
+    mapping is taken as the module name itself (`self.name = step`), whatever it is. -/
 def stepInit (d : StepDef) : Except (String × String) StepKind :=
+  match d.rawName with
+  | some v =>
+    -- the name is not a string
+    if d.simple then .error (loadNonString v)
+    else if !v.truthy then .error ("pypyr.errors.PipelineDefinitionError", "step must have a name.")
+    else match decoratorInit d with
+      | .error e => .error e
+      | .ok _ => .error (loadNonString v)
+  | none =>
   match d.name with
   | none => .error ("pypyr.errors.PipelineDefinitionError", "step must have a name.")
   | some n =>
-    if n == "" then .error ("pypyr.errors.PipelineDefinitionError", "step must have a name.")
-    else if d.retryBad then .error ("pypyr.errors.PipelineDefinitionError", "~retry decorator must be a dict (i.e a map) type.")
-    else if d.whileBad then .error ("pypyr.errors.PipelineDefinitionError", "~while decorator must be a dict (i.e a map) type.")
-    else
-      let whileMissing := match d.while_ with
-        | some w => w.stop.isNone && w.max.isNone
-        | none => false
-      if whileMissing then .error ("pypyr.errors.PipelineDefinitionError", "~the while decorator must have either max or stop")
+    if d.simple then
+      -- `- ""`: importlib's own complaint
+      if n == "" then .error ("ValueError", "Empty module name")
       else match stepKind? n with
         | some k => .ok k
         | none => .error ("pypyr.errors.PyModuleNotFoundError", "~module not found")
+    else
+    if n == "" then .error ("pypyr.errors.PipelineDefinitionError", "step must have a name.")
+    else match decoratorInit d with
+      | .error e => .error e
+      | .ok _ => match stepKind? n with
+        | some k => .ok k
+        | none => .error ("pypyr.errors.PyModuleNotFoundError", "~module not found")
+
+/-- `StepsRunner.get_pipeline_steps(step_group)` followed by the `for step in steps` of
+    `run_pipeline_steps`: the items the group denotes. An absent group and a null body give no steps;
+    `steps_count = len(steps)` raises for a body without a length. -/
+def GroupBody.items : GroupBody → Except (String × String) (List StepDef)
+  | .null => .ok []
+  | .steps ss => .ok ss
+  | .str s => .ok (s.toList.map fun c => itemStep (.str (String.singleton c)))
+  | .mapping ks => .ok (ks.map itemStep)
+  | .unsized => .error ("TypeError", "~object of this type has no len()")
+
+def getPipelineSteps (prog : Program) (pipe g : String) : Except (String × String) (List StepDef) :=
+  match prog.find? pipe with
+  | some pd => match pd.group? g with
+    | some b => b.items
+    | none => .ok []
+  | none => .ok []
 
 /-- The effective `(groups, success, failure)` of `Pipeline._run_pipeline`. -/
 def effectiveGroups (pi : PipeInst) : List String × Option String × Option String :=
@@ -196,7 +244,7 @@ def runStep : Nat → Program → String → StepDef → Body
       -- `context.current_pipeline.steps_runner.run_step_groups(...)`
       let callee : CofCfg → Body := fun c s' =>
         runGroups fuel prog (s'.stack.head?.getD pipe) c.groups c.success c.failure s'
-      runStepWith d body callee fuel s
+      runStepDescribed d body callee fuel s
 
 /-- `StepsRunner.run_pipeline_steps`. -/
 def runSteps : Nat → Program → String → List StepDef → Body
@@ -211,15 +259,14 @@ def runSteps : Nat → Program → String → List StepDef → Body
 def runStepGroup : Nat → Program → String → String → Bool → Body
   | 0, _, _, _, _ => fun s => (s, .outOfFuel)
   | fuel + 1, prog, pipe, g, raiseStop => fun s =>
-    let steps : List StepDef := match prog.find? pipe with
-      | some pd => match pd.group? g with
-        | some (some ss) => ss
-        | _ => []
-      | none => []
-    match runSteps fuel prog pipe steps s with
-    | (s1, .jump c) => runGroups fuel prog pipe c.groups c.success c.failure s1
-    | (s1, .stopGroup) => if raiseStop then (s1, .stopGroup) else (s1, .ok)
-    | other => other
+    -- `steps = self.get_pipeline_steps(...)` stands before the `try`
+    match getPipelineSteps prog pipe g with
+    | .error (n, m) => raiseNew s n m
+    | .ok steps =>
+      match runSteps fuel prog pipe steps s with
+      | (s1, .jump c) => runGroups fuel prog pipe c.groups c.success c.failure s1
+      | (s1, .stopGroup) => if raiseStop then (s1, .stopGroup) else (s1, .ok)
+      | other => other
 
 /-- the `for step_group in groups: self.run_step_group(step_group)` loop. -/
 def runGroupList : Nat → Program → String → List String → Body
